@@ -123,6 +123,7 @@ class Proxy:
 
 CALL_HOOKS = {}
 REAL_CLASSES = {}
+STUBS = {}          # class name -> native stand-in with behaviour (from replay/<pid>.py)
 REQUIRES = {}      # contract key -> {"params": [...], "requires": [{label,text}], "lets": {...}}
 VIOLATIONS = []
 NATIVE_ENV = {}
@@ -175,7 +176,7 @@ def build(v, path="?"):
             return collections.namedtuple(v["$nt"], v["$fields"])(*items)
         return tuple(items)
     if "$dict" in v:
-        return {k: build(x, path) for k, x in v["$dict"]}
+        return {(tuple(k) if isinstance(k, list) else k): build(x, path) for k, x in v["$dict"]}
     if "$set" in v:
         return set(build(x, path) for x in v["$set"])
     if "$kwargs" in v:
@@ -191,6 +192,12 @@ def build(v, path="?"):
                 d[k] = build(x, name + "." + k)
             return d
         cls = REAL_CLASSES.get(v["$obj"])
+        if v["$obj"] in STUBS:
+            o = STUBS[v["$obj"]](name, LOG)
+            OBJS[v["$id"]] = o
+            for k, x in v["fields"].items():
+                setattr(o, k, build(x, name + "." + k))
+            return o
         if cls is not None:
             o = Proxy(cls, {}, name)
             OBJS[v["$id"]] = o
@@ -314,17 +321,21 @@ def main():
             target = target.__func__
         for r in spec.get("ext_returns", []):
             RETURNS.setdefault(r["callee"].split(".")[-1], []).append(build(r["value"]))
-        params = {k: build(v, k) for k, v in spec["params"].items()}
-        # native helper twins for the property, if any
         helpers = {}
         pid = spec.get("pid")
+        hm = None
         if pid:
             try:
                 sys.path.insert(0, os.path.dirname(os.path.dirname(os.path.abspath(__file__))))
                 hm = importlib.import_module("replay.%s" % pid)
-                helpers = hm.native_helpers(LOG, params, spec)
+                if hasattr(hm, "native_stubs"):
+                    STUBS.update(hm.native_stubs())
             except ModuleNotFoundError:
-                pass
+                hm = None
+        params = {k: build(v, k) for k, v in spec["params"].items()}
+        # native helper twins for the property, if any
+        if hm is not None:
+            helpers = hm.native_helpers(LOG, params, spec)
         fn_args = inspect.getfullargspec(target)
         call_args = []
         call_kwargs = {}
